@@ -672,15 +672,30 @@ impl Engine for C19Engine {
             2 => (1u64..5000, -2i64..=2).prop_map(|(div, d)| ((u64::MAX / div) as i128 + d as i128).clamp(0, u64::MAX as i128) as u64),
             2 => (1u64..5000, -2i64..=2).prop_map(|(div, d)| ((i64::MAX as u64 / div) as i128 + d as i128).clamp(0, u64::MAX as i128) as u64),
         ];
-        (0u8..NENTRY as u8, 0u8..ELEM_SIZES.len() as u8, 0u8..6, count)
-            .prop_map(|(e, el, v, n)| {
-                let mut b = vec![e, el, v];
-                b.extend_from_slice(&n.to_le_bytes());
-                b
-            })
-            .boxed()
+        let items = (0u8..NENTRY as u8, 0u8..ELEM_SIZES.len() as u8, 0u8..6, count).prop_map(|(e, el, v, n)| {
+            let mut b = vec![e, el, v];
+            b.extend_from_slice(&n.to_le_bytes());
+            b
+        });
+        // second family (marker byte 0xFF): the collections slot machine, weighted towards growth and towards episodes
+        // under an exhausted allocation limit (requests that cannot, or can only just, be satisfied); oracle: the byte
+        // range a collection claims through its capacity never overlaps anything else that is live
+        //  push pop ins rem swr trn clr rsz ext exs app spl drn spc ret drf ddp rsv cln iit ibs ibx fri rd  drp new byt sib shr ddb
+        let w: [u32; 30] = [12, 2, 4, 2, 1, 2, 1, 3, 6, 6, 3, 2, 2, 3, 1, 1, 1, 8, 2, 1, 1, 1, 14, 0, 1, 6, 5, 6, 2, 1];
+        let coll = crate::coll_eng::coll_strategy(&w, 40).prop_map(|mut v| {
+            v.insert(0, 0xFF);
+            v
+        });
+        prop_oneof![3 => items, 1 => coll].boxed()
     }
     fn run(&self, bytes: &[u8]) -> CaseOut {
+        if bytes.first() == Some(&0xFF) {
+            let ctx = crate::coll_eng::run_coll_case(&bytes[1..]);
+            let viol: Vec<String> = ctx.viol.iter().filter(|(p, _)| *p == "C19").map(|(_, m)| m.clone()).collect();
+            let other: Vec<String> = ctx.viol.iter().filter(|(p, _)| *p != "C19").map(|(p, _)| p.to_string()).collect();
+            let grew = ctx.stats[crate::vec_eng::V::Reallocs as usize];
+            return CaseOut { viol, other, nontrivial: grew > 0, hash: fnv(bytes), stats: vec![1, 0, 0, 0], ..Default::default() };
+        }
         let g = |i: usize| bytes.get(i).cloned().unwrap_or(0);
         let entry = g(0) as usize % NENTRY;
         let elem = g(1) as usize % ELEM_SIZES.len();
@@ -700,6 +715,11 @@ impl Engine for C19Engine {
         out
     }
     fn describe(&self, bytes: &[u8]) -> Value {
+        if bytes.first() == Some(&0xFF) {
+            let mut d = crate::coll_eng::describe_coll(&bytes[1..]);
+            d["family"] = serde_json::json!("collections slot machine under growth and exhausted-limit episodes; claimed capacity ranges must be disjoint");
+            return d;
+        }
         let g = |i: usize| bytes.get(i).cloned().unwrap_or(0);
         let mut nb = [0u8; 8];
         for i in 0..8 {
@@ -717,7 +737,7 @@ impl Engine for C19Engine {
         }
     }
     fn rule(&self) -> String {
-        "systematic part: every size-taking entry point (24) x element size {0,1,3,8,24,4096,2^31+1} x every count within 2 of each overflow boundary (usize::MAX, usize::MAX/size, isize::MAX/size, isize::MAX rounded by 16/64/4096, 2^30, 2^31, 2^32) x 3 variants (MIN_ALIGN / alignment / pre-filled), enumerated completely; random part: proptest-generated (entry, element, variant, count) with boundary-biased counts. Oracle: outcome is Err / caught panic, or the claimed extent (len*size, capacity*size) lies inside one block the ledger shows the arena holds; a fallible entry point must not panic. non-trivial = a count above 4096 (i.e. on or near an overflow boundary rather than an ordinary small request); distinct = distinct (entry, element, variant, count). The sized-T multi-slice overflow runs in a sacrificial child with a 2^46-byte MAP_NORESERVE mapping.".into()
+        "second random family: the collections slot machine weighted towards growth and exhausted-limit episodes (reservations that cannot, or can only just, be satisfied); after every step the byte ranges all live collections claim through their capacity are pairwise disjoint (non-trivial = at least one reallocation). systematic part: every size-taking entry point (24) x element size {0,1,3,8,24,4096,2^31+1} x every count within 2 of each overflow boundary (usize::MAX, usize::MAX/size, isize::MAX/size, isize::MAX rounded by 16/64/4096, 2^30, 2^31, 2^32) x 3 variants (MIN_ALIGN / alignment / pre-filled), enumerated completely; random part: proptest-generated (entry, element, variant, count) with boundary-biased counts. Oracle: outcome is Err / caught panic, or the claimed extent (len*size, capacity*size) lies inside one block the ledger shows the arena holds; a fallible entry point must not panic. non-trivial = a count above 4096 (i.e. on or near an overflow boundary rather than an ordinary small request); distinct = distinct (entry, element, variant, count). The sized-T multi-slice overflow runs in a sacrificial child with a 2^46-byte MAP_NORESERVE mapping.".into()
     }
     fn sweep(&self, tier: Tier, idx: u32, nworkers: u32) -> Option<SweepOut> {
         let mut sw = c19_sweep(tier, idx, nworkers);
